@@ -12,7 +12,7 @@ for p in "$WT"/_seed/r*.diff; do
   if ! git apply "$p" 2>/tmp/refactor_err; then echo "$LABEL/$n: does not apply ($(head -1 /tmp/refactor_err))"; continue; fi
   T=$(/venv/bin/python -m pytest -q -p no:cacheprovider -q 2>&1 | tail -1)
   RES=$(cd /verif && /venv/bin/python -m pgv all --no-write 2>&1)
-  git checkout -- .
+  git checkout -- .; git clean -fdq -- pygopherd simpletal bin conf
   BAD=$(echo "$RES" | grep "^C[0-9].*violations=[1-9]\|ANALYSIS" | awk '{print $1}' | tr '\n' ' ')
   echo "$LABEL/$n: tests[$T] alarms=[$BAD]"
   echo "$RES" | grep -A2 "^VIOLATION" | grep "rule=\|^  [a-zA-Z]" | head -6 | cut -c1-260
